@@ -17,6 +17,7 @@ dictionary read back from a fresh open and the returned (updates, conflicts);
 the source must be unchanged.
 """
 import itertools
+import os
 
 from mc import par
 from mc.evidence import HarnessError
@@ -171,9 +172,11 @@ _W = None
 
 
 def world():
+    """The world of this process (a forked worker never reuses its parent's directories)."""
     global _W
-    if _W is None:
+    if _W is None or _W.pid != os.getpid():
         _W = World()
+        _W.pid = os.getpid()
     return _W
 
 
